@@ -122,13 +122,13 @@ func genC06(tier string, rng *RNG, w *CaseWriter) {
 		}
 	}
 	// (2) cancellation before / during / after the first exchange (one certificate naming sources)
-	for _, cancel := range []string{"before", "during", "after1"} {
+	for _, cancel := range []string{"before", "during", "after1", "after1done"} {
 		for _, o := range [][]ocspBehav{nil, {oGood}, {oErr, oGood}, {oGood, oGood}, {oBadURL, oGood}, {oUnknown, oGood}, {oErr, oErr, oGood}, {oRevoked}} {
 			for _, c := range [][]dpBehav{nil, {dpByName("clean")}, {dpByName("clean"), dpByName("clean")}, {dpByName("lists-cert"), dpByName("clean")}} {
 				if len(o)+len(c) == 0 {
 					continue
 				}
-				http := cancel != "after1" && len(c) > 0 && (len(o)+len(c))%2 == 0
+				http := cancel != "after1" && cancel != "after1done" && len(c) > 0 && (len(o)+len(c))%2 == 0
 				emitRev(w, mkCase(0, []cplan{{srcPlan: srcPlan{O: o, C: c}, faults: make([]string, len(c))}}, time.Time{}, http, "", cancel), true, "cancel:"+cancel)
 			}
 		}
